@@ -621,6 +621,31 @@ example : ((decodeRows (⟨-1, false, false, 8, 1048576, true, false, 0⟩ : FCC
   decide +kernel
 example : (⟨-1, false, false, 1048576, 1048576, true, false, 0⟩ : FCCITT).decParams.maxRows = 128 := by decide
 
+
+/-! ### the input cap of `FilterJBIG2.Decode` -/
+
+/-- `limit := min(budget.Available(), int64(limits.MaxJBIG2PageBytes)+1)` (filter.go): the number
+of bytes `FilterJBIG2.Decode` may buffer from the layers below it -/
+def jbig2InputCap (available : Int) : Int := min available ((Gen.limits_MaxJBIG2PageBytes : Int) + 1)
+
+/-- the cap never exceeds what is left of the stream budget, nor the page size limit + 1 -/
+theorem jbig2_input_cap_bounded (available : Int) :
+    jbig2InputCap available ≤ available ∧ jbig2InputCap available ≤ (Gen.limits_MaxJBIG2PageBytes : Int) + 1 := by
+  unfold jbig2InputCap; omega
+
+/-- for a raw stream of `rawLen` bytes with a fresh budget the decoder pulls at most
+`StreamBudget(rawLen) + 1` bytes (the cap and one probe byte), whatever the upstream offers -/
+theorem jbig2_pull_le_budget (rawLen : Nat) :
+    jbig2InputCap (streamBudget rawLen) + 1 ≤ (streamBudget rawLen : Int) + 1 := by
+  have := (jbig2_input_cap_bounded (streamBudget rawLen)).1; omega
+
+/-- the constants and inline literals the cap is written with -/
+theorem jbig2_cap_literals_pinned :
+    Gen.filter_FilterJBIG2_Decode_lits = [1, 1, 0, 255] ∧ Gen.limits_MaxJBIG2PageBytes = 67108864 ∧
+    Gen.limits_MaxJBIG2GlobalsBytes = 8388608 := by decide
+
+example : jbig2InputCap (streamBudget 300) = 8695808 := by decide
+
 /-! ### inline literals of the anchored Go functions
 
 The models repeat the integer literals that the Go code writes inline (`p.Colors > 60`,
